@@ -8,6 +8,7 @@ package mysql
 // a fake database/sql driver. The i-th statement fails iff i == failAt.
 
 import (
+	"strings"
 	"context"
 	"database/sql"
 	"database/sql/driver"
@@ -32,6 +33,11 @@ type verifRecT struct {
 	afterClose                      int // statements issued on a finished transaction
 	commitFails                     bool
 	affected                        int64
+	rowFor                          string // a query starting with this text finds one row (a zero); "" = no query finds rows
+}
+
+func (r *verifRecT) finds(query string) bool {
+	return r.rowFor != "" && strings.HasPrefix(query, r.rowFor)
 }
 
 var verifRec *verifRecT
@@ -159,6 +165,9 @@ func verifTxGet(tx *sqlx.Tx, dest any, query string, args ...any) error {
 	if err := verifRec.stmt(true); err != nil {
 		return err
 	}
+	if verifRec.finds(query) {
+		return nil
+	}
 	return sql.ErrNoRows
 }
 
@@ -274,6 +283,9 @@ func (c *verifConn) QueryContext(ctx context.Context, q string, args []driver.Na
 	for _, a := range args {
 		verifLastArgs = append(verifLastArgs, a.Value)
 	}
+	if verifRec.finds(q) {
+		return &verifOneRow{}, nil
+	}
 	return verifRows{}, nil
 }
 
@@ -309,6 +321,20 @@ func (s *verifStmt) Query(args []driver.Value) (driver.Rows, error) {
 		return nil, err
 	}
 	return verifRows{}, nil
+}
+
+// one row holding a single zero
+type verifOneRow struct{ done bool }
+
+func (*verifOneRow) Columns() []string { return []string{"c"} }
+func (*verifOneRow) Close() error      { return nil }
+func (r *verifOneRow) Next(dest []driver.Value) error {
+	if r.done {
+		return io.EOF
+	}
+	r.done = true
+	dest[0] = int64(0)
+	return nil
 }
 
 type verifRows struct{}
@@ -377,7 +403,14 @@ func verifSub(user t.Uid, topic string, owner bool) *t.Subscription {
 func Harness_C18_CredUpsert() {
 	a := verifAdapter(6)
 	cred := &t.Credential{User: t.Uid(7).String(), Method: "email", Value: "a@b.c", Resp: "123", Done: verifNondetBool("done")}
+	if verifNondetBool("alreadyConfirmedBySomebody") {
+		// the uniqueness probe finds a confirmed credential with this method:value
+		verifRec.rowFor = "SELECT done FROM credentials"
+	}
 	_, err := a.CredUpsert(cred)
+	if verifRec.rowFor != "" && !cred.Done && !verifRec.failedGeneric && !verifRec.failedDupe {
+		verifAssert(err == t.ErrDuplicate, "CredUpsert: a credential somebody has confirmed is refused as a duplicate")
+	}
 	verifCheckTx(err, "CredUpsert")
 }
 
